@@ -111,7 +111,7 @@ void oneSet(Ctx& C, const std::vector<Val>& t, bool audit, bool iterate) {
         STATS.hit(ok ? "elem.found" : "elem.none");
     }
     // root header
-    emit("hdrx %s %d", xn.c_str(), C.G->getIndexSetCardinality(x.getNode()));
+    emit("hdrx %s %ld", xn.c_str(), long(C.G->getIndexSetCardinality(x.getNode())));
     if (iterate) {
         // enumeration of the index set itself: members in order with values 0,1,2,...
         std::string R = "R" + xn;
@@ -135,11 +135,11 @@ void oneSet(Ctx& C, const std::vector<Val>& t, bool audit, bool iterate) {
         node_handle last = C.G->getLastNode();
         for (node_handle h = 1; h <= last; h++) {
             if (!C.G->isActiveNode(h) || C.G->isDeletedNode(h)) continue;
-            emit("hdr G N%d %d", h, C.G->getIndexSetCardinality(h));
+            emit("hdr G N%d %ld", h, long(C.G->getIndexSetCardinality(h)));
             STATS.hit("hdr.nodes");
         }
-        emit("hdr G TZ %d", C.G->getIndexSetCardinality(0));
-        emit("hdr G TW %d", C.G->getIndexSetCardinality(-1));
+        emit("hdr G TZ %ld", long(C.G->getIndexSetCardinality(0)));
+        emit("hdr G TW %ld", long(C.G->getIndexSetCardinality(-1)));
         // structural tie: the acceptor runs the MODEL conversion and the MODEL getElement on the
         // unfolded real source node structure and compares them with what the library produced
         emitAudit("F", C.F, C.ks);
@@ -152,6 +152,15 @@ void oneSet(Ctx& C, const std::vector<Val>& t, bool audit, bool iterate) {
     emit("unchanged %s", sn.c_str());
 }
 
+// ---------------------------------------------------------------------------------------------------------
+// LARGE product sets: { x : x_k in A_k for every k } over 20..24 variables of sizes 4..5, far more than 2^31
+// (often 2^32) members, a linear number of nodes.  The acceptor knows the closed form: the member of rank i is
+// the mixed-radix representation of i over (|A_K|, ..., |A_1|) mapped through the sorted A_k; records
+//   scalar prodset <size>:<digits of A_K>,...,<size>:<digits of A_1>
+//   prodelem <i> -> d_K ... d_1 | none          getElement(i)
+//   prodindex d_K ... d_1 -> <v>                 evaluate at an assignment (member -> its rank, else inf)
+//   prodcard <how> <n>                           how = header (getIndexSetCardinality of the root) | long | double
+void bigProduct(Rng& r, const Args& A, void (*open)(Ctx&, Rng&, bool), void (*close)(Ctx&));
 void openCtx(Ctx& C, Rng& r, bool randomPol) {
     C.D.create();
     emits(C.D.str());
@@ -168,6 +177,93 @@ void closeCtx(Ctx& C) {
     forest::destroy(C.F);
     forest::destroy(C.G);
     C.D.destroy();
+}
+
+void bigProduct(Rng& r, const Args& A, void (*open)(Ctx&, Rng&, bool), void (*close)(Ctx&)) {
+    (void) A;
+    Ctx C;
+    unsigned K = unsigned(r.range(20, 24));
+    for (unsigned i = 0; i < K; i++) C.D.sizes.push_back(r.range(4, 5));
+    bool quasi = r.chance(2, 3);
+    C.ks = srcKind(quasi ? reduction_rule::QUASI_REDUCED : reduction_rule::FULLY_REDUCED);
+    C.kx = idxKind(r.chance(1, 3) ? reduction_rule::QUASI_REDUCED : reduction_rule::FULLY_REDUCED);
+    open(C, r, true);
+    // allowed sets; a fully-reduced source never gets two adjacent unconstrained levels (the conversion
+    // expands skipped levels one by one)
+    std::vector<std::vector<int>> Aset(K + 1);
+    bool prevFull = false;
+    std::string desc;
+    long n = 1;
+    for (unsigned k = K; k; --k) {
+        int sz = C.D.sizes[k - 1];
+        int m = r.range(3, sz);
+        if (m == sz && (prevFull || !r.chance(1, 3))) m = sz - 1;
+        prevFull = m == sz;
+        std::vector<int> all;
+        for (int d = 0; d < sz; d++) all.push_back(d);
+        for (int j = 0; j < m; j++) { size_t q = size_t(j) + r.below(unsigned(all.size() - size_t(j))); std::swap(all[size_t(j)], all[q]); }
+        all.resize(size_t(m));
+        std::sort(all.begin(), all.end());
+        Aset[k] = all;
+        desc += (k == K ? "" : ",") + std::to_string(sz) + ":";
+        for (int d : all) desc += char('0' + d);
+        n *= m;
+    }
+    emit("scalar prodset %s", desc.c_str());
+    STATS.hit(n > (1L << 31) ? "prod.beyond-2^31" : "prod.within-2^31");
+    if (n > (1L << 32)) STATS.hit("prod.beyond-2^32");
+    {
+        dd_edge e(C.F);
+        C.F->createConstant(true, e);
+        for (unsigned k = 1; k <= K; k++) {
+            minterm_coll mc(unsigned(Aset[k].size()), C.F);
+            for (int d : Aset[k]) {
+                for (unsigned v = 1; v <= K; v++) mc.unused().setVar(v, DONT_CARE);
+                mc.unused().setVar(k, d);
+                mc.unused().setValue(true);
+                mc.pushUnused();
+            }
+            dd_edge ek(C.F);
+            mc.buildFunctionMax(false, ek);
+            apply(INTERSECTION, e, ek, e);
+        }
+        dd_edge x(C.G);
+        apply(CONVERT_TO_INDEX_SET, e, x);
+        emit("note product-set members %ld source-nodes %lu index-nodes %lu", n, e.getNodeCount(), x.getNodeCount());
+        emit("prodcard header %ld", long(C.G->getIndexSetCardinality(x.getNode())));
+        { long cl = -1; apply(CARDINALITY, x, cl); emit("prodcard long %ld", cl); }
+        { double cd = -1; apply(CARDINALITY, x, cd); emit("prodcard double %.0f", cd); }
+        // indexes around every boundary that matters + random ones
+        std::vector<long> idx = {-1, 0, 1, 12345, (1L << 31) - 1, 1L << 31, (1L << 31) + 1, (1L << 32) - 1, 1L << 32, (1L << 32) + 777,
+                                 n - 1, n, n + 5};
+        long wtop = n / long(Aset[K].size());                 // offset step of the top node's children
+        for (size_t j = 1; j < Aset[K].size(); j++) { idx.push_back(long(j) * wtop - 1); idx.push_back(long(j) * wtop); }
+        for (int j = 0; j < 24; j++) idx.push_back(long(r.next() % uint64_t(n)));
+        minterm m(C.G);
+        for (long i : idx) {
+            for (unsigned k = 1; k <= K; k++) m.from(k) = 0;
+            bool ok = x.getElement(i, m);
+            if (ok) {
+                std::string ds;
+                for (unsigned k = K; k; --k) ds += " " + std::to_string(m.from(k));
+                emit("prodelem %ld ->%s", i, ds.c_str());
+                // ... and back: the index of that assignment
+                rangeval rv;
+                x.evaluate(m, rv);
+                emit("prodindex%s -> %s", ds.c_str(), fromRangeval(rv).str().c_str());
+            } else emit("prodelem %ld -> none", i);
+            STATS.hit(ok ? "prod.elem.found" : "prod.elem.none");
+        }
+        // a few assignments that are not members
+        for (int j = 0; j < 6; j++) {
+            std::string ds;
+            for (unsigned k = K; k; --k) { int d = r.range(0, C.D.sizes[k - 1] - 1); m.from(k) = d; ds += " " + std::to_string(d); }
+            rangeval rv;
+            x.evaluate(m, rv);
+            emit("prodindex%s -> %s", ds.c_str(), fromRangeval(rv).str().c_str());
+        }
+    }
+    close(C);
 }
 
 int run(const Args& A) {
@@ -236,6 +332,12 @@ int run(const Args& A) {
             }
             endCase();
             closeCtx(C);
+            continue;
+        }
+        if (c % 25 == 24) {
+            beginCase(c);
+            bigProduct(r, A, openCtx, closeCtx);
+            endCase();
             continue;
         }
         C.D = randomDom(r, 1, A.thorough() ? 6 : 5, A.thorough() ? 5 : 4, A.thorough() ? 1500 : 400, false);
